@@ -4,7 +4,7 @@ import EudoxiaModel.Props.C16
 import EudoxiaModel.Props.C17
 import EudoxiaModel.Props.C18
 import EudoxiaModel.Proofs.Store
-import EudoxiaModel.Props.C02
+import EudoxiaModel.Proofs.Built
 /-! # C08 — shipped schedulers decide admissibly (per-round theorems; the run-to-the-end statement is checked on traces, see DESIGN.md)
 
 `partial`: what is proved here is, for every world and queue state, that one round of `priority` / `priority-pool` asks each pool for no more
@@ -307,100 +307,15 @@ theorem priority_pool_round_not_oversold (w w' : World) (st st' : St) (res : Lis
 
 /-! ### every assignment is built by the checked constructor, and no operator is assigned twice -/
 
-/-- a chain of accepted `Assignment(...)` constructions -/
-inductive Built : World → List Asg → World → Prop
-  | nil (w : World) : Built w [] w
-  | cons {w w1 w2 : World} {a : Asg} {as : List Asg} : w.mkAssignment a = .ok w1 → Built w1 as w2 → Built w (a :: as) w2
-
-theorem Built.append {w w1 w2 : World} {x y : List Asg} (h1 : Built w x w1) (h2 : Built w1 y w2) : Built w (x ++ y) w2 := by
-  induction h1 with
-  | nil => exact h2
-  | cons hm _ ih => exact .cons hm (ih h2)
-
-theorem assignOps_spec : ∀ (l : List Nat) (s s' : Store), assignOps s l = .ok s' →
-    l.Nodup ∧ (∀ o ∈ l, s.stOf o ∈ assignable ∧ s'.stOf o = assigned) ∧ ∀ o, o ∉ l → s'.stOf o = s.stOf o := by
-  intro l
-  induction l with
-  | nil => intro s s' h; simp [assignOps] at h; subst h; simp
-  | cons r rs ih =>
-    intro s s' h
-    unfold assignOps at h
-    split at h
-    · cases h
-    · rename_i s1 ht
-      obtain ⟨hv, _, hself, hother⟩ := C02.accepted_is_valid ht
-      obtain ⟨nd, hin, hout⟩ := ih s1 s' h
-      have hr : s.stOf r ∈ assignable := by
-        revert hv; cases s.stOf r <;> simp [validNext, assignable]
-      have hnot : r ∉ rs := by
-        intro hm
-        have := (hin r hm).1
-        rw [hself] at this
-        simp [assignable] at this
-      refine ⟨List.nodup_cons.mpr ⟨hnot, nd⟩, ?_, ?_⟩
-      · intro o ho
-        rcases List.mem_cons.mp ho with rfl | ho
-        · exact ⟨hr, by rw [hout _ hnot, hself]⟩
-        · have hne : o ≠ r := fun e => hnot (e ▸ ho)
-          exact ⟨by rw [← hother o hne]; exact (hin o ho).1, (hin o ho).2⟩
-      · intro o ho
-        simp only [List.mem_cons, not_or] at ho
-        rw [hout o ho.2, hother o ho.1]
-
-theorem mkAssignment_spec {w w' : World} {a : Asg} (h : w.mkAssignment a = .ok w') :
-    a.ops ≠ [] ∧ 0 < a.cpu ∧ 0 < a.ram ∧ a.ops.Nodup ∧ (∀ o ∈ a.ops, w.store.stOf o ∈ assignable ∧ w'.store.stOf o = assigned) ∧
-    (∀ o, o ∉ a.ops → w'.store.stOf o = w.store.stOf o) := by
-  unfold World.mkAssignment at h
-  split at h
-  · cases h
-  · rename_i h1
-    split at h
-    · cases h
-    · rename_i h2
-      split at h
-      · cases h
-      · rename_i h3
-        split at h
-        · cases h
-        · rename_i s hs
-          cases h
-          obtain ⟨a1, a2, a3⟩ := assignOps_spec _ _ _ hs
-          exact ⟨by simpa using h1, by simp at h2; omega, by simp at h3; omega, a1, a2, a3⟩
+/-! `Built` (a chain of accepted `Assignment(...)` constructions), `assignOps_spec`, `mkAssignment_spec` and `built_spec` live in
+`Proofs/Built.lean`; the statement used here: -/
 
 /-- **admissible by construction.**  Along a chain of accepted constructions no operator occurs twice (neither inside one assignment nor in two),
 every operator was PENDING or FAILED when the chain started and is ASSIGNED when it ends, and every container asks for positive CPU and RAM. -/
-theorem built_spec {w w' : World} {as : List Asg} (h : Built w as w') :
+theorem built_chain_spec {w w' : World} {as : List Asg} (h : Built w as w') :
     (as.flatMap (·.ops)).Nodup ∧ (∀ a ∈ as, a.ops ≠ [] ∧ 0 < a.cpu ∧ 0 < a.ram) ∧
     (∀ o ∈ as.flatMap (·.ops), w.store.stOf o ∈ assignable ∧ w'.store.stOf o = assigned) ∧
-    (∀ o, o ∉ as.flatMap (·.ops) → w'.store.stOf o = w.store.stOf o) := by
-  induction h with
-  | nil => simp
-  | cons hm _ ih =>
-    rename_i w w1 w2 a as _
-    obtain ⟨m1, m2, m3, m4, m5, m6⟩ := mkAssignment_spec hm
-    obtain ⟨i1, i2, i3, i4⟩ := ih
-    have disj : ∀ o, o ∈ a.ops → o ∉ as.flatMap (·.ops) := by
-      intro o ho hin
-      have h1 := (m5 o ho).2
-      have h2 := (i3 o hin).1
-      rw [h1] at h2
-      simp [assignable] at h2
-    refine ⟨?_, ?_, ?_, ?_⟩
-    · rw [List.flatMap_cons]
-      exact List.nodup_append.mpr ⟨m4, i1, fun x hx y hy e => disj x hx (e ▸ hy)⟩
-    · intro b hb
-      rcases List.mem_cons.mp hb with rfl | hb
-      · exact ⟨m1, m2, m3⟩
-      · exact i2 b hb
-    · intro o ho
-      rw [List.flatMap_cons] at ho
-      rcases List.mem_append.mp ho with ho | ho
-      · exact ⟨(m5 o ho).1, by rw [i4 o (disj o ho)]; exact (m5 o ho).2⟩
-      · have hna : o ∉ a.ops := fun hx => disj o hx ho
-        exact ⟨by rw [← m6 o hna]; exact (i3 o ho).1, (i3 o ho).2⟩
-    · intro o ho
-      rw [List.flatMap_cons, List.mem_append, not_or] at ho
-      rw [i4 o ho.2, m6 o ho.1]
+    (∀ o, o ∉ as.flatMap (·.ops) → w'.store.stOf o = w.store.stOf o) := built_spec h
 
 theorem prQueue_built (q : Nat) : ∀ (jobs : List Job) (w : World) (sn : List Snap) (k : Nat) (acc : List Asg)
     (w' : World) (sn' : List Snap) (k' : Nat) (out : List Asg),
